@@ -42,6 +42,7 @@ def generate(prop, rng, run, tier):
         n = rng.randint(15, 40)
     nch = 0 if start in ("blank", "empty", "noargs") else 3
     seq = []
+    model_keys_hint = ["TITLE", "ARTIST", "BPMS", "OFFSET", "MUSIC"] if start != "empty" else []
     # swarm: per run a random subset of op kinds is weighted down to zero
     weights = {}
     for k in ("del_key", "del_attr", "move", "charts_insert", "charts_remove", "charts_swap",
@@ -51,9 +52,36 @@ def generate(prop, rng, run, tier):
             weights[k] = 0
     if rng.random() < 0.15:
         weights["chart"] = 0
+    after_save = False
     for _ in range(n):
         r = rng.random()
-        if r < 0.10:
+        if after_save and rng.random() < 0.5:
+            # right after a save: a mutation that does not go through item assignment
+            # (stale-state hazards: anything derived from the mapping and kept across saves)
+            after_save = False
+            if fmt == "ssc" and nch > 0 and rng.random() < 0.5:
+                # chart-level bypass: reorder / pop / setdefault on a chart's mapping
+                ck = rng.choice(["NOTES", "NOTES2", "STEPSTYPE", "CREDIT", "DESCRIPTION", "METER",
+                                 "CHARTNAME", "RADARVALUES", "DIFFICULTY", "X"])
+                kind = rng.choice(["move", "move", "dict_pop", "dict_setdefault"])
+                if kind in ("dict_pop", "dict_setdefault") and ck in ("NOTES", "NOTES2"):
+                    ck = "CREDIT"
+                op = {"op": kind, "i": rng.randint(0, nch - 1), "key": ck}
+                if kind == "move":
+                    op["last"] = rng.random() < 0.5
+                if kind == "dict_setdefault":
+                    op["value"] = gen.gen_value(rng, profile)
+            else:
+                kind = rng.choice(["move", "dict_pop", "dict_popitem", "dict_setdefault",
+                                   "charts_swap", "charts_reverse", "chart"])
+                op = gen.gen_edit_op(rng, fmt, profile, nch, "roundtrip", {kind: 1000})
+                if op["op"] == "move" and model_keys_hint:
+                    op["key"] = rng.choice(model_keys_hint)
+            seq.append(op)
+            seq.append({"op": "save", "how": rng.choice(["str", "stringio"])})
+            continue
+        if r < 0.12:
+            after_save = True
             seq.append({"op": "save", "how": rng.choice(["str", "stringio", "textio", "disk"])})
         elif r < 0.18:
             seq.append({"op": "restart", "entry": rng.choice(["ctor-string", "ctor-file", "loads",
@@ -206,7 +234,7 @@ def roundtrip_domain(model):
         for c in model.charts:
             if not isinstance(c, RefSMChart):
                 return "foreign-chart"
-            if [k for k, _ in c.items] != list(SM_FIELDS):
+            if sorted(k for k, _ in c.items) != sorted(SM_FIELDS):
                 return "smchart-keys"
             for _, v in c.items:
                 if v != v.strip():
